@@ -17,3 +17,90 @@ RAND = [
 MODULES = [
     ('Rand', RAND, ''),
 ]
+
+# ------------------------------------------------------------------ Sort (Util/SelectionRule.h)
+from xlate import Fn, Out, parse_sort_switch, sort_switch_hook
+import astdump
+
+def sort_keys(tu, t):
+    """all SortingTarget<...>::get specialisations -> keyReal / keyCplx dispatch on the rule value"""
+    specs = {'real': {}, 'cplx': {}}
+    generic = None
+    for o in tu.objs:
+        if o.get('name') != 'SortingTarget': continue
+        if o['kind'] == 'ClassTemplateDecl':
+            rec = [c for c in o['inner'] if c['kind'] == 'CXXRecordDecl'][0]
+            generic = [c for c in rec['inner'] if c['kind'] == 'CXXMethodDecl' and c['name'] == 'get'][0]
+        elif o['kind'] == 'ClassTemplatePartialSpecializationDecl':
+            ta = [c for c in o['inner'] if c['kind'] == 'TemplateArgument']
+            fam = 'cplx' if 'complex<' in ta[0].get('type', {}).get('qualType', '') else 'any'
+            rule = ta[1]['value']
+            get = [c for c in o['inner'] if c['kind'] == 'CXXMethodDecl' and c['name'] == 'get'][0]
+            if fam == 'cplx': specs['cplx'][rule] = get
+            else:
+                specs['real'][rule] = get
+                specs['cplx'].setdefault(rule, get)   # Scalar = complex instantiates the generic-Scalar specialisation
+    if generic is None: raise XlateError('primary SortingTarget template not found')
+    # the primary template must throw (that is what rejects undefined rules at run time)
+    gfn = Fn(tu, generic, dict(mode='value', throws=True, params={'val': 'sc'}))
+    gtxt, _ = gfn.translate('key_generic')
+    if 'Res.throw "std::invalid_argument"' not in gtxt.split(':=', 1)[1].strip().split('\n')[0]:
+        raise XlateError('primary SortingTarget::get does not start by throwing invalid_argument')
+    res = []
+    nrules = len(tu.enums['SortRule'])
+    for fam, pk in (('real', 'sc'), ('cplx', 'cplx')):
+        branches = []; oks = []
+        for rule in range(nrules):
+            g = specs[fam].get(rule)
+            if g is None: continue
+            try:
+                f = Fn(tu, g, dict(mode='value', params={'val': pk}, ret_kind='sc'))
+                txt, _ = f.translate('k')
+                body = txt.split(':=\n', 1)[1].strip()
+                if '\n' in body: raise XlateError('multi-statement key')
+                if fam == 'cplx' and (body == '(-val)' or body == 'val'): raise XlateError('complex-valued key is not ordered')
+            except XlateError as e:
+                if fam == 'cplx': continue      # e.g. LargestAlge on complex: `-val` is complex, `<` does not compile: no instance
+                raise
+            branches.append((rule, body)); oks.append(rule)
+        nm = 'keyReal' if fam == 'real' else 'keyCplx'
+        ty = 'α' if fam == 'real' else '(α × α)'
+        s = f'def {nm} {{α : Type}} [Add α] [Sub α] [Mul α] [Div α] [Neg α] [Sc α] (rule : Int) (val : {ty}) : α :=\n'
+        for rule, body in branches: s += f'  if rule = {rule} then {body} else\n'
+        s += '  Sc.ofInt 0\n'
+        s += f'\n/-- rules for which `SortingTarget<{("Scalar" if fam=="real" else "std::complex<Scalar>")}, rule>::get` is defined and real-valued (others throw / do not compile) -/\n'
+        s += f'def {nm}_defined (rule : Int) : Bool := ' + (' || '.join(f'decide (rule = {r})' for r in oks) or 'false') + '\n'
+        res.append(s)
+    return '\n'.join(res)
+
+def sort_rule_fn(lean_name, path, index=0):
+    def g(tu, t):
+        node = tu.find(path, index)
+        fn = Fn(tu, node, dict(mode='value', throws=True, members=t['cfg'].get('members', {})))
+        body = [c for c in node['inner'] if c['kind'] == 'CompoundStmt'][0]
+        sw = [c for c in body['inner'] if c['kind'] == 'SwitchStmt']
+        if len(sw) != 1: raise XlateError('expected exactly one switch')
+        cond, groups = parse_sort_switch(fn, sw[0])
+        chain = ''
+        for labels, rule, *_ in groups:
+            chain += 'if ' + ' || '.join(f'decide (sel = {l})' for l in labels) + f' then {rule} else '
+        return f'def {lean_name} (sel : Int) : Int := {chain}(-1)'
+    return g
+
+SORT = [
+    dict(lean='keys', header='Util/SelectionRule.h', custom=sort_keys, path='SortingTarget::get'),
+    dict(lean='argsort_rule', header='Util/SelectionRule.h', custom=sort_rule_fn('argsort_rule', 'argsort'), path='argsort', cfg={}),
+    T('argsort', 'argsort', 'Util/SelectionRule.h', mode='value', throws=True, params={'values': 'arr_sc', 'selection': 'enum'},
+      stmt_hook=sort_switch_hook, ret_type='Res (Int → Int)', force_sc=True),
+]
+MODULES.append(('Sort', SORT, 'import SpectraVerif.Prelude.Sort\n'))
+
+def first_n(n):
+    return lambda fn, ss: ss[:n]
+
+SORT += [
+    dict(lean='gen_select_rule', header='GenEigsBase.h', custom=sort_rule_fn('gen_select_rule', 'GenEigsBase::retrieve_ritzpair'), path='GenEigsBase::retrieve_ritzpair', cfg={}),
+    dict(lean='gen_sort_rule', header='GenEigsBase.h', custom=sort_rule_fn('gen_sort_rule', 'GenEigsBase::sort_ritzpair'), path='GenEigsBase::sort_ritzpair', cfg={}),
+    T('herm_sort_guard', 'HermEigsBase::sort_ritzpair', 'HermEigsBase.h', mode='guard', throws=True, slice=first_n(1),
+      params={'sort_rule': 'enum'}, ret_type='Res Unit'),
+]
